@@ -979,7 +979,9 @@ def c19a(chk, rows):
             chk.ob("C19.a", "get_axis/axis-bounds-check#%d/strictly-below-dimensions" % n, bool(strict), f.loc(b),
                    "indexing shape/strides by the axis number must be dominated by `axis < dimensions()` (strict); found %s%s"
                    % (rel or "no dominating comparison", " - ONE-SIDED COMPARISON: axis == dimensions() passes the guard and then indexes out of bounds" if weak and not strict else ""))
-        chk.ob("C19.a", "get_axis/axis-bounds-checks-found", n >= 2, f.loc(), "%d bounds checks on the axis number (shape[axis], strides[axis])" % n, nontrivial=False)
+        # (shape / strides looked up with the non-panicking `get(axis)` have no bounds check to guard: each such lookup stands for one)
+        gets_ = len([1 for b_, t_ in f.calls() if callee_name(t_["callee"]).split("::")[-1] == "get" and "slice" in callee_name(t_["callee"])])
+        chk.ob("C19.a", "get_axis/axis-bounds-checks-found", n + gets_ >= 2, f.loc(), "%d bounds checks on the axis number (shape[axis], strides[axis]), %d non-panicking slice lookups" % (n, gets_), nontrivial=False)
         # index < shape[axis]: the view is constructed only where a strict bound on the position argument holds
         nu = an.calls(f, ARR + "view::View::<'a, T>::new_unchecked")
         ok = False
